@@ -136,6 +136,11 @@ def run_case(case, ctx):
     last_batch = None
     for i, (op, item) in enumerate(ops):
         base = dict(detector=name, params=params, step=i, op=op)
+        if name == "NNDVI" and op == "update" and getattr(det, "reference_batch", None) is not None:
+            pool_ = np.unique(np.vstack([np.asarray(det.reference_batch, dtype=float).reshape(-1, np.asarray(item).shape[1]), np.asarray(item, dtype=float)]), axis=0)
+            if len(pool_) <= params["k_nn"]:
+                ctx.count("nndvi_updates_skipped_pool_not_larger_than_k")
+                continue  # fewer pooled points than neighbours asked for: outside the detector's domain
         # ---- running detector
         np.random.seed(rngtap.seed_for(key, i))
         try:
